@@ -2,11 +2,11 @@
 #include <map>
 namespace tr { struct Segment { std::string name; std::function<long(bool)> count; std::function<void(long, uint64_t, bool, vh::Result&)> run; }; }
 #define DECL(f) void vh_tree_segments_f##f(std::map<std::string, std::vector<tr::Segment>>&);
-DECL(1) DECL(2) DECL(3) DECL(4) DECL(5) DECL(6) DECL(7) DECL(8) DECL(9) DECL(10)
+DECL(1) DECL(2) DECL(3) DECL(4) DECL(5) DECL(6) DECL(7) DECL(8) DECL(9) DECL(10) DECL(11)
 int main(int argc, char** argv) {
     std::map<std::string, std::vector<tr::Segment>> segs;
     vh_tree_segments_f1(segs); vh_tree_segments_f2(segs); vh_tree_segments_f3(segs); vh_tree_segments_f4(segs); vh_tree_segments_f5(segs);
-    vh_tree_segments_f6(segs); vh_tree_segments_f7(segs); vh_tree_segments_f8(segs); vh_tree_segments_f9(segs); vh_tree_segments_f10(segs);
+    vh_tree_segments_f6(segs); vh_tree_segments_f7(segs); vh_tree_segments_f8(segs); vh_tree_segments_f9(segs); vh_tree_segments_f10(segs); vh_tree_segments_f11(segs);
     std::vector<vh::Mode> modes;
     for (auto& kv : segs) {
         auto list = kv.second;
